@@ -782,6 +782,7 @@ func (e *specEnv) call(n *ECall) specVal {
 		return mathBool(vc.typeFacts(v.term, v.typ, e.st))
 	case "allocated":
 		v := arg(0)
+		vc.pinTerm(sx("root", e.refOf(v)))
 		return mathBool(sx("select", e.heap("alloc", allocSort), sx("root", e.refOf(v))))
 	case "fresh":
 		if e.old == nil {
